@@ -13,6 +13,9 @@ MODULES_STORE = ["RotoV.Model.BoundaryStore", "RotoV.Lemmas.BoundaryStore"]
 # every read sees an assigned value: definite assignment on the blocks of the LIR
 PROPS_DEFUSE = "RotoV.Props.C05DefUse"
 MODULES_DEFUSE = ["RotoV.Model.BoundaryDefUse", "RotoV.Lemmas.BoundaryDefUse"]
+# only built-in and registered types cross: the generated name tests of check_roto_type
+PROPS_GATE = "RotoV.Props.C05Gate"
+MODULES_GATE = ["RotoV.Model.BoundaryGate"]
 
 
 def search(ctx):
@@ -32,7 +35,8 @@ def run(ctx):
         os.remove(f)
     ctx.extract(["boundary"])
     theorems, examples, axioms = [], 0, {}
-    for props, mods in ((PROPS, MODULES), (PROPS_STORE, MODULES_STORE), (PROPS_DEFUSE, MODULES_DEFUSE)):
+    for props, mods in ((PROPS, MODULES), (PROPS_STORE, MODULES_STORE), (PROPS_DEFUSE, MODULES_DEFUSE),
+                        (PROPS_GATE, MODULES_GATE)):
         ctx.prove(props, extra_modules=mods)
         theorems += ctx.coverage.get("theorems", [])
         examples += ctx.coverage.get("nonvacuity_examples", 0)
